@@ -164,7 +164,19 @@ def gen_case(rng, cid, ntypes=None, adversarial=False, ninj=1, nfiles=1, force_a
     if adversarial:
         cands = ['eg', 'ctx', 'zero', 'ch', 'err', 'errgroup0', 'app', 'app']
         picked = list(dict.fromkeys(rng.sample(cands, rng.randint(0, 2))))
-        pkglevel = ''.join('var %s = %d\n' % (n, i) for i, n in enumerate(picked))
+        # declared as variables or as constants; sometimes also a constant named like the local a provided type would get
+        pkglevel = ''.join('%s %s = %d\n' % (rng.choice(['var', 'const']), n, i) for i, n in enumerate(picked))
+        lows = []
+        for t in alltypes:
+            nm = t[1].lstrip('*')
+            if nm[:1].isupper() and nm.isalnum():
+                lows.append(nm[0].lower() + nm[1:])
+        impnames = {'kessoku', 'context', 'errgroup'} | {(al or pth.split('/')[-1]) for pth, al in imports.items()}
+        lows = [x for x in lows if x not in picked and x not in ('app',) and x not in impnames and not any(q.get('fname') == x for q in provs)]
+        if lows and rng.random() < 0.5:
+            cn = rng.choice(lows)
+            pkglevel += 'const %s = 7\n' % cn
+            picked = picked + [cn]
         c.meta['pkglevel'] = picked
         if picked and rng.random() < 0.5:
             # the declarations live in a sibling file written by another generator
